@@ -132,7 +132,7 @@ PROPS = {
                      "handshakes / member lists / unreachable reports for members, non-members and repeated ones; agent reports captured by a recorder registered as the agent, replies by a fake Remoter; "
                      "incarnation counter detects a crash-restart; non-trivial = >= 2 ops",
                 assumptions=["member hosts are pairwise distinct", "zeroconf announcement/discovery and the memberPing timer are not modelled"]),
-    "C09": dict(lean_modules=["HW.Props.C09"], streams=[_ENGINE_STREAM], rule=_ENGINE_RULE, assumptions=_ENGINE_ASSUME, spec_relevant=r"FAIL:(\S*C09|harness)"),
+    "C09": dict(lean_modules=["HW.Props.C09"], facts=True, streams=[_ENGINE_STREAM], rule=_ENGINE_RULE, assumptions=_ENGINE_ASSUME, spec_relevant=r"FAIL:(\S*C09|harness)"),
     "C12": dict(lean_modules=["HW.Props.C12"], streams=[_ENGINE_STREAM, dict(name="tree", pkg="actor", test="TestVerifTree", shrink_key="ops", timeout=2400, timeout_thorough=3400)], rule=_ENGINE_RULE + " || tree: a duplicate SpawnChild (sd) must publish exactly one ActorDuplicateIdEvent (counted by a synchronous subscriber after flushing the event stream)", assumptions=_ENGINE_ASSUME, spec_relevant=r"FAIL:(\S*C12|harness)"),
     "C10": dict(lean_modules=["HW.Props.C10"], facts=True,
                 streams=[dict(name="reg", pkg="actor", test="TestVerifReg", shrink_key="ops"),
